@@ -214,9 +214,13 @@ def load_known_findings():
 # evidence
 
 def write_evidence(prop_id, tier, seed, level, obligations, wall_s, assumptions, trusted_base,
-                   checker_cmd, extra=None, violations=0):
+                   checker_cmd, extra=None, violations=0, known_names=()):
     os.makedirs(EVIDENCE_DIR, exist_ok=True)
-    mine = [o for o in obligations if prop_id in o.props]
+    all_mine = [o for o in obligations if prop_id in o.props]
+    # obligations that ARE an open known finding (known_findings.txt) and failed as recorded are reported apart:
+    # they are neither counted as obligations to discharge nor as discharged
+    known_failed = [o for o in all_mine if o.name in known_names and o.status == VIOLATED]
+    mine = [o for o in all_mine if o not in known_failed]
     discharged = [o for o in mine if o.status == DISCHARGED]
     samples = [
         "%s: %s [%s %.1fs, %s]" % (o.owner, o.text, o.backend, o.time_s, o.status) for o in mine[:12]
@@ -241,6 +245,7 @@ def write_evidence(prop_id, tier, seed, level, obligations, wall_s, assumptions,
         cov["transitions"] = max(1, sum(o.checks for o in mine))
         cov["traces_validated_against_impl"] = sum(1 for o in mine if o.replay_confirmed)
         cov["exhaustive"] = all(o.status == DISCHARGED for o in mine)
+    cov["open_known_finding_obligations"] = [o.to_json() for o in known_failed]
     if extra:
         cov.update(extra)
     ev = {
